@@ -93,6 +93,9 @@ func RunCLI(o CLIOpts) *Obs {
 	if ctx.Err() != nil {
 		obs.TimedOut = true
 	}
+	if cmd.ProcessState != nil {
+		obs.CPUSec = (cmd.ProcessState.UserTime() + cmd.ProcessState.SystemTime()).Seconds()
+	}
 	obs.Stdout = so.String()
 	obs.Stderr = se.String()
 	if o.Merge {
